@@ -321,6 +321,77 @@ fn canaries(mon: &mut Monitor, oc: bool) {
     });
 }
 
+
+/// Small polynomial operations (cross, perp, perp_dot, rotate): every component is a sum of signed products of lanes; the
+/// expectation follows the primitive's semantics of the profile (wrapping in release, panic on overflow with overflow checks,
+/// either when only an intermediate overflows).
+fn geom_ops(mon: &mut Monitor, oc: bool) {
+    fn neg(w: Wide) -> Wide { Wide { w: w.w.wrapping_neg(), e: w.e.map(|x| -x) } }
+    /// p1 - p2 (or p1 + p2) of two lane products as the primitive computes it: each product first (an overflowing product
+    /// panics with overflow checks even when the difference would fit), then the sum
+    fn two_products<O: Int>(oc: bool, a: i128, b: i128, c: i128, d: i128, minus: bool) -> Exp<O> {
+        let (p1, p2) = (wmul(a, b), wmul(c, d));
+        if oc && !(matches!(p1.e, Some(v) if O::fits(v)) && matches!(p2.e, Some(v) if O::fits(v))) {
+            return Exp::Panic;
+        }
+        sum_expect::<O>(oc, &[p1, if minus { neg(p2) } else { p2 }], true)
+    }
+    /// expectation for one component of a call that evaluates several: a certain panic elsewhere is a panic of the call,
+    /// a possible one makes the outcome either
+    fn combine<O: Int>(own: Exp<O>, others: &[Exp<O>]) -> Exp<O> {
+        if matches!(own, Exp::Panic) || others.iter().any(|e| matches!(e, Exp::Panic)) { return Exp::Panic; }
+        let v = match own { Exp::Val(v) | Exp::Either(v) => v, _ => return own };
+        if matches!(own, Exp::Either(_)) || others.iter().any(|e| matches!(e, Exp::Either(_))) { Exp::Either(v) } else { Exp::Val(v) }
+    }
+    let r = mon.n(300, 20_000);
+    macro_rules! cross3 {
+        ($($T:ident, $S:ty);*) => {$({
+            let ty = stringify!($T);
+            for k in 0..3usize {
+                let (i, j) = ((k + 1) % 3, (k + 2) % 3);
+                let _ = (i, j);
+                ired2::<$S, $S, 3>(mon, oc, ty, &format!("cross[{}]", k), r, &|a, b| Some($T::from_array(a).cross($T::from_array(b)).to_array()[k]), &|a, b| {
+                    // the call evaluates all three components: it panics (overflow checks) as soon as one of them does
+                    let comp = |k: usize| { let (i, j) = ((k + 1) % 3, (k + 2) % 3); two_products::<$S>(oc, a[i].to_i128(), b[j].to_i128(), b[i].to_i128(), a[j].to_i128(), true) };
+                    combine(comp(k), &[comp((k + 1) % 3), comp((k + 2) % 3)])
+                });
+            }
+        })*};
+    }
+    cross3!(I8Vec3, i8; U8Vec3, u8; I16Vec3, i16; U16Vec3, u16; IVec3, i32; UVec3, u32; I64Vec3, i64; U64Vec3, u64; USizeVec3, usize);
+    macro_rules! planar {
+        ($($T:ident, $S:ty);*) => {$({
+            let ty = stringify!($T);
+            ired2::<$S, $S, 2>(mon, oc, ty, "perp_dot", r, &|a, b| Some($T::from_array(a).perp_dot($T::from_array(b))), &|a, b| two_products::<$S>(oc, a[0].to_i128(), b[1].to_i128(), a[1].to_i128(), b[0].to_i128(), true));
+            // b.rotate(a) = (b.x a.x - b.y a.y, b.y a.x + b.x a.y)
+            ired2::<$S, $S, 2>(mon, oc, ty, "rotate[0]", r, &|a, b| Some($T::from_array(b).rotate($T::from_array(a)).to_array()[0]), &|a, b| {
+                let c0 = two_products::<$S>(oc, b[0].to_i128(), a[0].to_i128(), b[1].to_i128(), a[1].to_i128(), true);
+                let c1 = two_products::<$S>(oc, b[1].to_i128(), a[0].to_i128(), b[0].to_i128(), a[1].to_i128(), false);
+                combine(c0, &[c1])
+            });
+            ired2::<$S, $S, 2>(mon, oc, ty, "rotate[1]", r, &|a, b| Some($T::from_array(b).rotate($T::from_array(a)).to_array()[1]), &|a, b| {
+                let c0 = two_products::<$S>(oc, b[0].to_i128(), a[0].to_i128(), b[1].to_i128(), a[1].to_i128(), true);
+                let c1 = two_products::<$S>(oc, b[1].to_i128(), a[0].to_i128(), b[0].to_i128(), a[1].to_i128(), false);
+                combine(c1, &[c0])
+            });
+            ired2::<$S, $S, 2>(mon, oc, ty, "perp[0]", r / 2, &|a, _b| Some($T::from_array(a).perp().to_array()[0]), &|a, _b| sum_expect::<$S>(oc, &[neg(wval(a[1].to_i128()))], true));
+            ired2::<$S, $S, 2>(mon, oc, ty, "perp[1]", r / 2, &|a, _b| Some($T::from_array(a).perp().to_array()[1]), &|a, _b| combine(Exp::Val(a[0]), &[sum_expect::<$S>(oc, &[neg(wval(a[1].to_i128()))], true)]));
+        })*};
+    }
+    planar!(I8Vec2, i8; I16Vec2, i16; IVec2, i32; I64Vec2, i64);
+    // map: the closure is applied to each lane in order
+    if let Some(mut c) = mon.begin("int vectors", "map") {
+        let g = IVec4::new(1, -2, 3, -4).map(|x| x * 10 + 1).to_array();
+        let h = U8Vec3::new(1, 2, 3).map(|x| x + 7).to_array();
+        let i = I64Vec2::new(5, -6).map(|x| -x).to_array();
+        c.event(0, true);
+        if g != [11, -19, 31, -39] || h != [8, 9, 10] || i != [-5, 6] {
+            c.violation("lane_mismatch", &["map"], "map on IVec4 / U8Vec3 / I64Vec2".into(), format!("{:?} {:?} {:?}", g, h, i), "[11,-19,31,-39] [8,9,10] [-5,6]".into(), String::new());
+        }
+        mon.end(c);
+    }
+}
+
 pub fn run(mon: &mut Monitor) {
     vcommon::mon::quiet_panics();
     let oc = overflow_checks();
@@ -330,6 +401,7 @@ pub fn run(mon: &mut Monitor) {
     s_usz2(mon, oc);
     s_usz3(mon, oc);
     s_usz4(mon, oc);
+    geom_ops(mon, oc);
 }
 
 usize_suite!(s_usz2, USizeVec2, 2, IVec2, UVec2);
